@@ -1,4 +1,4 @@
-use core::{num::NonZeroU32, ops::ControlFlow};
+use core::{num::NonZeroUsize, ops::ControlFlow};
 
 use crate::{
     bsl::{TxIns, TxOuts, Witnesses},
@@ -13,7 +13,7 @@ pub struct Transaction<'a> {
 
     /// The length of the slice inlcuding all inputs and outputs of the transaction.
     /// If some the tx is segwit
-    inputs_outputs_len: Option<NonZeroU32>,
+    inputs_outputs_len: Option<NonZeroUsize>,
 }
 
 impl<'a> Visit<'a> for Transaction<'a> {
@@ -38,7 +38,7 @@ impl<'a> Visit<'a> for Transaction<'a> {
 
                 let tx = Transaction {
                     slice: &slice[..consumed],
-                    inputs_outputs_len: NonZeroU32::new(inputs_outputs_len as u32), // inputs_outputs_len is at least 2 bytes if both empty, they contain the compact int len
+                    inputs_outputs_len: NonZeroUsize::new(inputs_outputs_len), // inputs_outputs_len is at least 2 bytes if both empty, they contain the compact int len
                 };
                 match visit.visit_transaction(&tx) {
                     ControlFlow::Continue(_) => Ok(ParseResult::new(&slice[consumed..], tx)),
@@ -83,7 +83,7 @@ impl<'a> Transaction<'a> {
         if let Some(len) = self.inputs_outputs_len.as_ref() {
             (
                 &self.slice[..4],                       // version
-                &self.slice[6..len.get() as usize + 6], // input & outputs (but first skips segwit markers, why bip143 didn't want to hash those?)
+                &self.slice[6..len.get() + 6], // input & outputs (but first skips segwit markers, why bip143 didn't want to hash those?)
                 &self.slice[self.as_ref().len() - 4..], // locktime
             )
         } else {
